@@ -826,6 +826,19 @@ class FnAnalysis(Analysis):
                     k = {"GtE": cr, "Gt": cr + 1, "Eq": cr}.get(opn)
                     if k is not None:
                         st.lenge = st.lenge | {(self.len_of(ll.left, st), ll.right.id, k)}
+            # ... written the other way round: len(buf) >= off + k
+            for (ll, rr, fl) in ((l, r, False), (r, l, True)):
+                if self.len_of(ll, st) is not None and isinstance(rr, ast.BinOp) and isinstance(rr.op, ast.Add):
+                    nm_, cr = (rr.left, self.cint(rr.right)) if isinstance(rr.left, ast.Name) else ((rr.right, self.cint(rr.left)) if isinstance(rr.right, ast.Name) else (None, None))
+                    if nm_ is not None and cr is not None and self.cint(nm_) is None:
+                        opn = type(op).__name__
+                        if fl:
+                            opn = {"Lt": "Gt", "Gt": "Lt", "LtE": "GtE", "GtE": "LtE"}.get(opn, opn)
+                        if not truth:
+                            opn = {"Lt": "GtE", "GtE": "Lt", "Gt": "LtE", "LtE": "Gt", "Eq": "NotEq", "NotEq": "Eq"}.get(opn)
+                        k = {"GtE": cr, "Gt": cr + 1, "Eq": cr}.get(opn)
+                        if k is not None:
+                            st.lenge = st.lenge | {(self.len_of(ll, st), nm_.id, k)}
             # length facts
             name, c, flip = self.len_of(l, st), self.cint(r), False
             if name is None:
@@ -1293,6 +1306,22 @@ class FnAnalysis(Analysis):
             if c_ is not None and c_ >= 0 and off_ is not None and off_.ilb is not None and off_.ilb >= 0 and rem is not None and rem >= c_:
                 kind0 = base.kind if base.kind in ("bytes", "str", "list", "strlist") else ("bytes" if base.taint else "any")
                 return Val(taint=base.taint, kind=kind0, lb=c_, exact=c_, elem=base.elem)
+        if sl.step is None and st is not None and base_key is not None and isinstance(sl.lower, ast.BinOp) and isinstance(sl.upper, ast.BinOp) \
+                and isinstance(sl.lower.op, ast.Add) and isinstance(sl.upper.op, ast.Add):
+            # x[off + a:off + b] with len(x) - off >= k >= b established for a non-negative cursor off: exactly b - a elements
+            def split(u):
+                if isinstance(u.left, ast.Name) and self.cint(u.right) is not None:
+                    return u.left.id, self.cint(u.right)
+                if isinstance(u.right, ast.Name) and self.cint(u.left) is not None:
+                    return u.right.id, self.cint(u.left)
+                return None, None
+            (n1, a_), (n2, b_) = split(sl.lower), split(sl.upper)
+            if n1 is not None and n1 == n2 and 0 <= a_ <= b_:
+                off_ = st.env.get(n1)
+                rem = max((p[2] for p in st.lenge if len(p) == 3 and p[0] == base_key and p[1] == n1), default=None)
+                if off_ is not None and off_.ilb is not None and off_.ilb >= 0 and rem is not None and rem >= b_:
+                    kind0 = base.kind if base.kind in ("bytes", "str", "list", "strlist") else ("bytes" if base.taint else "any")
+                    return Val(taint=base.taint, kind=kind0, lb=b_ - a_, exact=b_ - a_, elem=base.elem)
         if sl.step is None and lo == 0 and hi is None and isinstance(sl.upper, ast.Name) and st is not None:
             n = st.env.get(sl.upper.id)
             if n is not None and n.ilb is not None and n.ilb >= 0:
@@ -1363,6 +1392,17 @@ class FnAnalysis(Analysis):
         a, b = self.val(e.left, st), self.val(e.right, st)
         self.none_raiser(e, a, f"`{type(e.op).__name__}`")
         self.none_raiser(e, b, f"`{type(e.op).__name__}`")
+        if isinstance(e.op, ast.Mod) and isinstance(e.left, ast.Constant) and isinstance(e.left.value, str):
+            # "..%02x:%02x.." % tuple(<peer bytes>): the tuple must have exactly as many items as the format has fields
+            import re as _re
+            nf = len(_re.findall(r"%(?!%)", e.left.value.replace("%%", "")))
+            r_ = e.right
+            if isinstance(r_, ast.Call) and isinstance(r_.func, ast.Name) and r_.func.id in ("tuple", "list") and len(r_.args) == 1:
+                src = self.val(r_.args[0], st)
+                if src.taint and src.kind in ("bytes", "list", "any") and src.exact != nf:
+                    self.raiser(e, "TypeError", f"%-format with {nf} fields applied to a tuple of peer data whose length is "
+                                                f"{'not known to be ' + str(nf) if src.exact is None else src.exact}")
+            return Val(a.taint or b.taint, "str")
         if isinstance(e.op, (ast.Div, ast.FloorDiv, ast.Mod)) and b.taint and const_int(e.right) is None and b.kind != "str" and a.kind != "str":
             self.raiser(e, "ZeroDivisionError", "peer-controlled divisor")
         return self.binop_val(e.op, a, b)
@@ -1986,6 +2026,9 @@ class FnAnalysis(Analysis):
                     self.raiser(e, "ValueError", ".index() on peer-controlled data")
                 return Val(taint, "int")
             if mname in STR_METHODS:
+                # strip / replace / ljust ... exist on bytes as well: the result has the receiver's kind (a later .decode() is still a decode of bytes)
+                if recv.kind == "bytes" and mname not in ("format",):
+                    return Val(taint, "bytes")
                 return Val(taint, "str")
             if mname in BYTES_RESULT_METHODS:
                 return Val(taint, "bytes")
